@@ -178,6 +178,11 @@ package configf
 //@   perreturn
 //@   modifies buf.buf.bytes
 //@   ensures [C03] err == nil && buf.buf.bytes == pre
+//@   site if#1 assert [C03] buf.buf.bytes == e1
+//@   site if#3 assert [C03] buf.buf.bytes == e2
+//@   site if#5 assert [C03] buf.buf.bytes == e3
+//@   site if#7 assert [C03] buf.buf.bytes == e4
+//@   site if#9 assert [C03] buf.buf.bytes == e5
 //@   safety [C03]
 //
 //@ func (*GetConfigListInfo).WriteBlock
